@@ -217,7 +217,7 @@ def encIOp : Import.IOp → String
 
 def importErr : Import.Err → String
   | .key => "key" | .value => "value" | .syntax => "syntax" | .notImpl => "notImpl" | .name => "name"
-  | .zeroDiv => "zeroDiv" | .index => "index" | .recursion => "recursion"
+  | .zeroDiv => "zeroDiv" | .index => "index" | .recursion => "recursion" | .type => "type"
 
 def specErr : SpecErr → String
   | .undeclaredReg => "undeclaredReg" | .undeclaredGate => "undeclaredGate" | .indexRange => "indexRange"
